@@ -7,7 +7,8 @@ from vf.core import Suite, coq_hex, coq_list, coq_bool
 from vf.gen import pick_weighted
 
 ID = "C40"
-THEOREMS = []
+THEOREMS = ["C40_confined", "C40_footprint", "C40_terminates", "C40_serves_repository",
+            "C40_bound_chroot_confined", "C40_helper_chroot_confined"]
 MODEL_FILES = ["GoPath.v", "Loader.v"]
 MODELLED = ("plumbing/transport/loader.go: FilesystemLoader.load (Chroot, .git directory / gitfile, absolute vs relative gitdir, "
             "'.git' suffix retry, tried/strict flags), readGitfile (Model/Loader.v); go-billy v6 osfs.BoundOS.Chroot "
